@@ -173,9 +173,36 @@ func init() {
 				if isSetting(v) {
 					return true
 				}
-				if p, ok := v.(*ssa.Parameter); ok && inHelper {
-					_ = p
-					return true
+				if p, ok := v.(*ssa.Parameter); ok {
+					if inHelper {
+						return true
+					}
+					// a constructor step that is handed the age: judged at its call sites
+					pi := -1
+					for k, q := range fn.Params {
+						if q == p {
+							pi = k
+						}
+					}
+					calls := 0
+					okAll := true
+					for _, caller := range fns {
+						an.Calls(caller, func(call ssa.CallInstruction) {
+							h := call.Common().StaticCallee()
+							if h == nil || (h != fn && h.Origin() != fn && (fn.Origin() == nil || h.Origin() != fn.Origin())) || call.Common().IsInvoke() {
+								return
+							}
+							if pi < 0 || pi >= len(call.Common().Args) {
+								okAll = false
+								return
+							}
+							calls++
+							if !notBelow(caller, call.Common().Args[pi], d+1, false) {
+								okAll = false
+							}
+						})
+					}
+					return calls > 0 && okAll
 				}
 				switch x := v.(type) {
 				case *ssa.Const:
